@@ -119,17 +119,21 @@ def run(eng, tier):
             nconv += 1
             eng.ob(w['op'] == 'save' and w['fpos'] > pos, PROP, 'window', 'save-inside', 'a bid write is not a save inside the window test', where=w['site'])
             k = w['key']
-            # key comes from the V2-decodable range of the "bid" namespace
-            okk = k[0] == 'v' and k[1][0] == 'iternext' and k[1][1][0] == 'iter' and k[1][1][1][0] == 'collect'
-            src = k[1][1][1][1] if okk else None
+            # the key comes from the range over the "bid" namespace decoded as the old format, undecodable entries skipped.
+            # Two shapes: a list of keys (|kv| kv.ok().map(|r| r.0)) reloaded one by one, or a list of (key, record) entries (|kv| kv.ok())
+            entry_form = k[0] == 'f' and k[2] == '0'
+            item = k[1] if entry_form else k
+            okk = item[0] == 'v' and item[1][0] == 'iternext' and item[1][1][0] == 'iter' and item[1][1][1][0] == 'collect'
+            src = item[1][1][1][1] if okk else None
             okk = okk and src[0] == 'call' and src[1].endswith('filter_map') and src[2][0][0] == 'srange' and src[2][0][1] == 'bid' and src[2][1][0] == 'lambda'
             eng.ob(okk, PROP, 'keys', 'from-range', 'converted bid key %s does not come from the filtered range over the "bid" namespace' % K(k)[:160], where=w['site'])
             if okk:
                 lam = src[2][1]; b = ('bound', lam[1], 0)
                 outs = {tuple(f for f in facts): ret for facts, ret in lam[3]}
+                payload = V(b, 'Ok', '0') if entry_form else F(V(b, 'Ok'), '0')
                 okl = len(lam[3]) == 2 and outs.get((('is', b, 'Err'),)) == ('adt', 'std::option::Option', 'None', ()) and \
-                    outs.get((('is', b, 'Ok'),)) == ('adt', 'std::option::Option', 'Some', (('0', F(V(b, 'Ok'), '0')),))
-                eng.ob(okl, PROP, 'keys', 'skip-undecodable', 'the key filter is not |kv| kv.ok().map(|r| r.0): entries that are not old-format must be skipped, decodable ones kept', where=w['site'],
+                    outs.get((('is', b, 'Ok'),)) == ('adt', 'std::option::Option', 'Some', (('0', payload),))
+                eng.ob(okl, PROP, 'keys', 'skip-undecodable', 'the range filter is not |kv| kv.ok() (optionally keeping only the key): entries that are not old-format must be skipped, decodable ones kept', where=w['site'],
                        sample={'rule': 'keys', 'filter': [(tuple(PF(f) for f in fs), K(r)) for fs, r in lam[3]]})
             # range / load are typed as the old format
             rng = [e for e in reads if e[3] == 'range']
@@ -139,11 +143,16 @@ def run(eng, tier):
             if val[0] != 'adt': continue
             d = dict(val[3])
             OLD = d.get('id')[1] if d.get('id') and d['id'][0] == 'f' else None
-            okold = OLD is not None and OLD[0] == 'stored' and OLD[1] == 'bid' and OLD[2] == k
+            if entry_form:
+                # the record of the very entry whose key is used (range yields (key, record stored under it))
+                okold = okk and OLD == F(item, '1')
+            else:
+                okold = OLD is not None and OLD[0] == 'stored' and OLD[1] == 'bid' and OLD[2] == k
             eng.ob(okold, PROP, 'conversion', 'same-key', 'the converted record is not derived from the old record stored under the same key', where=w['site'])
             if not okold: continue
-            ld = [e for e in reads if e[3] == 'load' and eng.N['migrate'](e[2]) == k]
-            eng.ob(bool(ld) and all('BidOrderV2' in str(e[4][5]) for e in ld), PROP, 'conversion', 'loaded-as-old', 'the record to convert is not loaded as the old format', where=w['site'])
+            if not entry_form:
+                ld = [e for e in reads if e[3] == 'load' and eng.N['migrate'](e[2]) == k]
+                eng.ob(bool(ld) and all('BidOrderV2' in str(e[4][5]) for e in ld), PROP, 'conversion', 'loaded-as-old', 'the record to convert is not loaded as the old format', where=w['site'])
             for fld in ('base', 'fee', 'id', 'owner', 'price', 'quote'):
                 eng.ob(d.get(fld) == F(OLD, fld), PROP, 'conversion', 'field:' + fld, 'converted %s is %s, not the old record\'s %s' % (fld, K(d.get(fld))[:100] if d.get(fld) else None, fld), where=w['site'])
             for acc in ('accumulated_base', 'accumulated_quote', 'accumulated_fee'):
